@@ -17,7 +17,7 @@ CLASSES = {
     "s_int_ws": " 12 ", "s_float_exp": "1e3", "tuple2e": "(1;)", "tuple3e": "(x;;)",      # tuples with empty components
     "none": None, "empty": "", "elist": [], "edict": {},
     "list_int": [5, 6], "list_str": ["x", "y"], "list_mixed": [1, "a"], "list_s_int": ["5", "6"],
-    "list_tuple2": ["(1;2)", "(3;4)"],
+    "list_tuple2": ["(1;2)", "(3;4)"], "list_tuple2p": ["(1;2)", "(f(x);3)"], "list_tuple23": ["(1;2)", "(1;2;3)"],
 }
 NATIVE = {
     "string": ["a", "b", "c"], "text": ["a\nb", "c", "d"], "url": ["http://a", "http://b", "http://c"],
@@ -152,7 +152,7 @@ def history_cases(n_hist, depth, rng):
 SC = ["int", "int0", "negint", "float_i", "float_f", "true", "false", "str", "text", "s_int", "s_float", "s_bool",
       "s_date", "s_time", "s_datetime", "date", "time", "time_us", "datetime", "datetime_us", "tuple2", "tuple3",
       "bracketed", "dict", "none", "empty", "elist", "edict", "datetime_tz", "time_tz", "inf", "bigint", "s_int_ws", "s_float_exp", "tuple2e", "tuple3e"]
-LC = ["list_int", "list_str", "list_mixed", "list_s_int", "list_tuple2"]
+LC = ["list_int", "list_str", "list_mixed", "list_s_int", "list_tuple2", "list_tuple2p", "list_tuple23"]
 PC = ["prop_int", "prop_str", "prop_unit"]
 DTS = list(NATIVE)
 
